@@ -25,8 +25,6 @@ explicit character loop, not by the service's regular expressions.
 import hashlib
 import sqlite3
 
-import os_resource_classes as orc
-
 from vp import explore_seq, reqs
 from vp.http import R, Resp
 from vp.names import P
@@ -589,7 +587,10 @@ def run(ctx):
     total['never_collided'] = sorted(t for t, c in total['outcomes'].items() if len(c) == 1)
     total['samples'] = total['samples'] or [
         {'alphabet_entry': t, 'statuses_observed': total['outcomes'][t]}
-        for t in sorted(total['outcomes'])[:6]] + [
+        for t in ('RESTART', 'POST /resource_classes CUSTOM_A', 'PUT@1.6 rename CUSTOM_A -> CUSTOM_B',
+                  'DELETE /resource_classes/<standard>', 'PUT /traits/<256>',
+                  'DELETE /traits/CUSTOM_A', 'PUT@1.7 /resource_classes/<newline>')
+        if t in total['outcomes']] + [
         {'start_state': n, 'setup': [explore_seq._short(r) for r in s]}
         for n, s in Spec(*configs[0]).starts()[1:3]]
     fill(ctx, total,
@@ -606,6 +607,17 @@ def run(ctx):
     ctx.coverage['exhaustive'] = bool(total['fixpoint'])
     ctx.coverage['standard_traits'] = len(STD_TRAITS)
     ctx.coverage['standard_classes'] = len(STD_CLASSES)
+    dropped = {t: c for t, c in total['outcomes'].items()
+               if '<newline>' in t and not t.startswith('POST') and
+               any(int(x) < 400 for x in c)}
+    ctx.coverage['notes'] = []
+    if dropped:
+        ctx.coverage['notes'].append(
+            'a path ending in an encoded newline (/traits/CUSTOM_A%%0A, /resource_classes/'
+            'CUSTOM_A%%0A) is not rejected: the router (Routes, pattern [^/]+?$) drops the newline '
+            'and the request acts on CUSTOM_A; no stored name ever contains the newline, so the '
+            'property holds and this is admitted as the second reading of the request: %s'
+            % {t: dropped[t] for t in sorted(dropped)})
     ctx.assumptions[:] = [a for a in ctx.assumptions if not a.startswith('depth-bounded')]
     ctx.assumptions += [
         'resource-class ids are part of the state, which makes the space infinite; creation of a '
